@@ -1,6 +1,7 @@
 import QibModel.Qubitization
 import Mathlib.Algebra.Group.Defs
 import Mathlib.Data.Real.Basic
+import Mathlib.Algebra.FreeMonoid.Basic
 import Mathlib.Algebra.BigOperators.Group.List.Basic
 import Mathlib.Tactic.Ring
 /-!
@@ -133,5 +134,21 @@ theorem evtCircuitLoop_spec :
           simp only [evtSpec, e1, e2, if_true, one_ne_zero, if_false, mul_assoc]
 
 end CircuitLoop
+
+/-! ### the loop run in the free monoid -/
+
+/-- letters of the free monoid: `inl θ` = the phase shift by `θ`, `inr true` = the encoding, `inr false` = its inverse -/
+abbrev Letter := ℝ ⊕ Bool
+
+/-- the product in the free monoid: the *word* the loop writes down, before any matrix is substituted -/
+def evtWord (θs : List ℝ) : FreeMonoid Letter :=
+  evtSpec (fun a => FreeMonoid.of (Sum.inl a)) (FreeMonoid.of (Sum.inr true)) (FreeMonoid.of (Sum.inr false)) θs
+
+theorem evtWord_cons (a : ℝ) (rest : List ℝ) :
+    (evtWord (a :: rest)).toList = Sum.inl a :: Sum.inr (decide (rest.length % 2 = 0)) :: (evtWord rest).toList := by
+  unfold evtWord
+  rw [evtSpec]
+  by_cases h : rest.length % 2 = 0 <;> simp [h, FreeMonoid.toList_mul, FreeMonoid.toList_of]
+
 
 end Qib.Qubitization
